@@ -36,7 +36,7 @@ import (
 var c19Feeders = []string{"sumdb", "tiles", "pixel", "rekor", "serverless", "distributor"}
 var c19Sizes = []string{"normal", "0", "2^62", "2^62+5", "2^63-1", "2^63", "2^64-1"}
 var c19Roots = []int{32, 0, 5, 33}
-var c19Nets = []string{"", "", "trunc:9", "trunc:100", "oversize:3000000", "garbage:11", "status:500", "status:404", "status:301", "stall", "empty", "corrupt:3", "drop", "contentlength:4611686018427387904", "contentlength:3", "literal:0", "literal:0", "literal:1", "literal:2", "literal:3", "literal:4", "literal:5", "literal:6", "literal:7", "literal:8", "literal:9"}
+var c19Nets = []string{"", "", "trunc:9", "trunc:100", "oversize:3000000", "garbage:11", "status:500", "status:404", "status:301", "stall", "empty", "corrupt:3", "drop", "contentlength:4611686018427387904", "contentlength:3", "literal:0", "literal:0", "literal:x"}
 
 func c19Size(s string) uint64 {
 	switch s {
@@ -475,6 +475,9 @@ func init() {
 			k /= uint64(len(c19Sizes))
 			c.Root = c19Roots[k%uint64(len(c19Roots))]
 			c.Net = Pick(r, c19Nets...)
+			if c.Net == "literal:x" {
+				c.Net = fmt.Sprintf("literal:%d", r.Range(1, 9))
+			}
 			if r.Chance(0.1) {
 				c.Prior = false
 			}
@@ -619,6 +622,12 @@ func init() {
 					// an origin line the endpoint does not know and that is not valid UTF-8 (it ends up in log lines and metric labels)
 					mut = "badorigin"
 					bad := Pick(r, "\xff", "log-\xf8-latin1", "\xc3\x28", "a\x00b", "\xed\xa0\x80")
+					if r.Chance(0.4) {
+						// ... or is valid UTF-8 but long, with multi-byte characters sitting across every round byte offset (whoever
+						// cuts it to a length in bytes cuts a character in two)
+						k := Pick(r, 15, 31, 63, 127, 255, 1023)
+						bad = strings.Repeat("a", k) + strings.Repeat("\u00e9\u20ac\U0001F512", 1+r.IntN(200))
+					}
 					body = wireBody(req.Old, nil, []byte(bad+"\n5\nAAAA\n\n\xe2\x80\x94 k AAAAAAAA\n"))
 				case 0:
 				case 1, 2:
